@@ -1,6 +1,6 @@
 /-
   C08: `soundevent/evaluation/tasks/sound_event_detection.py` (after the repairs
-  fixes/C08-1 … C08-5) with the clip pairing of `tasks/common.py`.
+  fixes/C08-1 … C08-4) with the clip pairing of `tasks/common.py`.
 
   The geometric matcher (`match_geometries`, property C07) is not modelled: its answer on
   the *filtered* geometry lists (only sound events that have a geometry are handed to it) is a
@@ -10,11 +10,13 @@
   What the code does with that answer, per clip:
     * the matcher's indices are positions in the filtered lists; they are mapped back to the
       positions in the clip's own lists (`geomIdx`);
-    * an entry with both sides and affinity > 0 is a match: affinity as reported, score =
-      probability the prediction gives to the annotation's class (`tcp`), one metric
-      (true-class probability);
-    * every other side of an entry is an unmatched sound event: affinity as reported by the
-      matcher (0), score 0 (a two-sided entry with affinity 0 yields two unmatched entries);
+    * an entry with both sides is a match: affinity as reported, score = probability the
+      prediction gives to the annotation's class (`tcp`), one metric (true-class probability);
+      that such an entry has affinity > 0 is the matcher's business (since the repair of
+      `match_geometries`, C07, zero-affinity assignments come out as two one-sided entries) and
+      part of the monitored contract;
+    * a one-sided entry is an unmatched sound event: affinity as reported by the matcher (0),
+      score 0;
     * sound events without geometry are appended as unmatched (affinity 0, score 0),
       predictions first;
     * clip score = mean of the match scores (0.0 without matches), overall score = mean of
@@ -77,9 +79,7 @@ def matchedPair (C : Nat) (preds : List SEPred) (anns : List SEAnn) (i j : Nat) 
 def stepEntries (C : Nat) (preds : List SEPred) (anns : List SEAnn)
     (s t : Option Nat) (aff : Rat) : List Entry :=
   match s, t with
-  | some i, some j =>
-    if 0 < aff then [matchedPair C preds anns i j aff]
-    else [unmatchedPred C preds i aff, unmatchedAnn C anns j aff]
+  | some i, some j => [matchedPair C preds anns i j aff]
   | some i, none => [unmatchedPred C preds i aff]
   | none, some j => [unmatchedAnn C anns j aff]
   | none, none => []
@@ -114,14 +114,14 @@ def entryOut (e : Entry) : Except Err MatchOut := do
     else pure []
   return { src := e.src, tgt := e.tgt, affinity := e.aff, score := some e.score, metrics := fs }
 
-/-- what the matcher must satisfy on lists of `n` sources and `m` targets (C07's cover
-    property): every source and every target position occurs exactly once, no entry is empty,
-    affinities are in [0, 1] and 0 on one-sided entries. -/
+/-- what the matcher must satisfy on lists of `n` sources and `m` targets (C07's cover and
+    positive-pairs properties): every source and every target position occurs exactly once, no
+    entry is empty, affinities are in [0, 1], 0 on one-sided entries and positive on pairs. -/
 def MatcherCover (n m : Nat) (ms : List MEntry) : Prop :=
   (ms.filterMap (·.src)).Perm (List.range n) ∧
   (ms.filterMap (·.tgt)).Perm (List.range m) ∧
   (∀ e ∈ ms, (e.src.isSome ∨ e.tgt.isSome) ∧ 0 ≤ e.aff ∧ e.aff ≤ 1 ∧
-     ((e.src.isNone ∨ e.tgt.isNone) → e.aff = 0))
+     ((e.src.isNone ∨ e.tgt.isNone) → e.aff = 0) ∧ ((e.src.isSome ∧ e.tgt.isSome) → 0 < e.aff))
 
 /-- executable form of `MatcherCover` (for the run-time monitor) -/
 def matcherCoverB (n m : Nat) (ms : List MEntry) : Bool :=
@@ -130,7 +130,7 @@ def matcherCoverB (n m : Nat) (ms : List MEntry) : Bool :=
   (List.range m).all (fun j => (ms.filterMap (·.tgt)).count j == 1) &&
   (ms.filterMap (·.tgt)).all (fun j => decide (j < m)) &&
   ms.all (fun e => (e.src.isSome || e.tgt.isSome) && decide (0 ≤ e.aff) && decide (e.aff ≤ 1) &&
-    ((e.src.isSome && e.tgt.isSome) || e.aff == 0))
+    (if e.src.isSome && e.tgt.isSome then decide (0 < e.aff) else e.aff == 0))
 
 /-- every position below `n` occurs exactly once in `l`, and nothing else does -/
 def exactlyOnceB (n : Nat) (l : List Nat) : Bool :=
